@@ -67,7 +67,20 @@ type obs struct {
 	note    string
 }
 
+// rawObs switches observation rendering to full hex (fault-injection streams need the bytes)
+var rawObs = false
+
 func (o obs) String() string {
+	if rawObs {
+		switch {
+		case o.timeout:
+			return "T:" + hx(o.data)
+		case o.closed:
+			return "X:" + hx(o.data)
+		default:
+			return hx(o.data) + o.note
+		}
+	}
 	switch {
 	case o.timeout:
 		return "T:" + digest(o.data)
